@@ -5,7 +5,7 @@
    there (-Q coq "" -Q <scratch> Gen). *)
 Require Import List String Bool.
 Import ListNotations.
-Require Import Conc.TwoPLDefs Conc.Skel Conc.SkelOblig.
+Require Import Conc.TwoPLDefs Conc.Skel Conc.SkelOblig Conc.SkelSound.
 Require Import Gen.LockSkel Gen.Known.
 Local Open Scope string_scope.
 
@@ -27,3 +27,6 @@ Goal obl_helpers helper_skels = true. Proof. vm_compute. reflexivity. Qed.
    sorted positions; concurrentmap.go: the key counter is updated atomically and Keys() does not
    index a slice sized from it *)
 Goal obl_facts shape_facts = true. Proof. vm_compute. reflexivity. Qed.
+(* no empty alternative list (side condition of go_bodies_all_sound: goroutines started from
+   deferred calls are covered too) *)
+Goal forallb (fun p => neb (snd p)) (skels ++ helper_skels) = true. Proof. vm_compute. reflexivity. Qed.
